@@ -418,23 +418,69 @@ def _check_shapes(ctx: Ctx) -> None:
     fn = M.func(MISC, 'count_bit_errors')
     ctx.instance('C15.c', 'count_bit_errors')
     p1, p2 = fn.params[0], fn.params[1]
-    loc = {}
+    assigns: Dict[str, List[ast.AST]] = {}
     for n in walk_no_nested(fn.node):
-        if isinstance(n, ast.Assign) and isinstance(n.targets[0], ast.Name):
-            loc[n.targets[0].id] = n.value
+        if isinstance(n, ast.Assign) and len(n.targets) == 1 and isinstance(n.targets[0], ast.Name):
+            assigns.setdefault(n.targets[0].id, []).append(n.value)
+    VIEW = {'ravel', 'flatten', 'reshape', 'view', 'squeeze', 'copy', 'astype'}
+
+    def xor_roots(e: ast.AST, depth: int = 0) -> Optional[List[Tuple[str, str]]]:
+        """operand pairs of the xor call(s) the value e is a piece / view of; None when it cannot be traced."""
+        if depth > 8:
+            return None
+        ops = xor_operands(e)
+        if ops is not None:
+            return [(norm(ops[0]), norm(ops[1]))]
+        if isinstance(e, ast.Subscript):
+            return xor_roots(e.value, depth + 1)
+        if isinstance(e, ast.Call) and isinstance(e.func, ast.Attribute) and e.func.attr in VIEW:
+            return xor_roots(e.func.value, depth + 1)
+        if isinstance(e, ast.Call) and norm(e.func) in ('np.ravel', 'np.asarray', 'np.array', 'np.atleast_1d') and e.args:
+            return xor_roots(e.args[0], depth + 1)
+        if isinstance(e, ast.Name) and e.id in assigns:
+            out: List[Tuple[str, str]] = []
+            for v in assigns[e.id]:
+                r = xor_roots(v, depth + 1)
+                if r is None:
+                    return None
+                out += r
+            return out
+        return None
+
+    counts = [c for c in walk_no_nested(fn.node) if isinstance(c, ast.Call) and norm(c.func).split('.')[-1] == 'count_bits' and c.args]
     rets = [n for n in walk_no_nested(fn.node) if isinstance(n, ast.Return)]
-    ok = False
-    if len(rets) == 1 and isinstance(rets[0].value, ast.Call) and norm(rets[0].value.func) in ('np.sum', 'sum'):
-        inner = rets[0].value.args[0]
-        if isinstance(inner, ast.Call) and norm(inner.func).split('.')[-1] == 'count_bits':
-            x = inner.args[0]
-            if isinstance(x, ast.Name) and x.id in loc:
-                x = loc[x.id]
-            ops = xor_operands(x)
-            ok = ops is not None and {norm(ops[0]), norm(ops[1])} == {p1, p2}
-    ctx.obligation('C15.c', 'count_bit_errors', ok, {'returns': [norm(r.value) for r in rets]})
+    if not counts:
+        ctx.error('C15.c: count_bit_errors no longer counts bits through count_bits (cannot tell)')
+    wrong = []
+    for c in counts:
+        roots = xor_roots(c.args[0])
+        if roots is None:
+            ctx.error('C15.c: the argument `%s` of count_bits in count_bit_errors cannot be traced to an xor of the two operands (cannot tell)'
+                      % norm(c.args[0])[:50])
+        wrong += [r for r in roots if set(r) != {p1, p2}]
+
+    def sum_form(e: ast.AST, name: Optional[str] = None) -> bool:
+        """np.sum(<..count_bits..>[, axis]) | <name> + sum_form | sum_form + sum_form"""
+        if isinstance(e, ast.Call) and norm(e.func) in ('np.sum', 'sum', 'numpy.sum') and e.args:
+            return any(x in counts for x in ast.walk(e.args[0]))
+        if isinstance(e, ast.Call) and isinstance(e.func, ast.Attribute) and e.func.attr == 'sum':
+            return any(x in counts for x in ast.walk(e.func.value))
+        if isinstance(e, ast.BinOp) and isinstance(e.op, ast.Add):
+            l_ok = (isinstance(e.left, ast.Name) and e.left.id == name) or sum_form(e.left, name)
+            r_ok = (isinstance(e.right, ast.Name) and e.right.id == name) or sum_form(e.right, name)
+            return l_ok and r_ok
+        return False
+    for r in rets:
+        v = r.value
+        good = sum_form(v) or (isinstance(v, ast.Name) and v.id in assigns and all(sum_form(a, v.id) for a in assigns[v.id]))
+        if not good:
+            ctx.error('C15.c: count_bit_errors returns `%s`, which is not a sum of count_bits(...) terms (cannot tell)' % norm(v)[:60])
+    ok = not wrong
+    ctx.obligation('C15.c', 'count_bit_errors', ok, {'returns': [norm(r.value)[:60] for r in rets], 'count_bits_calls': len(counts),
+                                                     'xor_operands_other_than_the_two_arguments': wrong})
     if not ok:
-        ctx.violation('C15.c', 'count_bit_errors', 'is not sum(count_bits(xor(first, second)))', fn.path, fn.lineno, operand='shape')
+        ctx.violation('C15.c', 'count_bit_errors', 'is not sum(count_bits(xor(first, second))): the counted bits come from xor%s' % (wrong[0],),
+                      fn.path, fn.lineno, operand='shape')
     fn = M.func(MISC, 'count_bits')
     ctx.instance('C15.c', 'count_bits')
     whiles = [n for n in walk_no_nested(fn.node) if isinstance(n, ast.While)]
